@@ -4,7 +4,7 @@ cd "$(dirname "$0")/.." || exit 2
 echo "== unchanged tree"
 for p in C08 C09 C15 C18 C19 C20; do ./vcheck $p --no-evidence 2>&1 | grep -E "VIOLATION|HARNESS|^\[" | cut -c1-260; done
 echo "== seeded changes"
-for d in seeded/*/; do
+for d in seeded/*/; do [ -f "$d/meta.json" ] || continue
   id=$(basename "$d"); prop=$(python3 -c "import json;print(json.load(open('$d/meta.json'))['breaks_property'])")
   out=$(tools/try_patch.sh "$d/patch.diff" "$prop" 2>&1)
   if echo "$out" | grep -q "^VIOLATION"; then echo "caught  $prop $id  $(echo "$out" | grep -m1 -o 'violation class=[^ ]*')"; else echo "MISSED  $prop $id"; fi
